@@ -22,6 +22,8 @@ func init() {
 			ruleCodecSiblings(c, r, "")
 			ruleBudgetFresh(c, r, "")
 			ruleLookahead(c, r, "")
+			ruleFlushFailStop(c, r, "")
+			ruleCtorReopen(c, r, "")
 			cone := c.Cone(nonNilFns(c.Func("lzma", "Writer2.Write"), c.Func("lzma", "Writer2.Flush"), c.Func("lzma", "Writer2.Close"),
 				c.Func("lzma", "Writer2Config.NewWriter2"))...)
 			ruleIO(c, r, cone, "", true)
